@@ -184,7 +184,7 @@ def main():
     rep.bounds = {'levels': '1-3', 'boxes_per_level': '1-4', 'files_per_level': '1-3'}
     common.run_cases(rep, run_case, cases())
     from harness import k_lemmas
-    k_lemmas.run_into(rep, ['k_whip'])
+    k_lemmas.run_into(rep, ['k_whip', 'k_expand'])
     return rep.finish()
 
 
